@@ -65,6 +65,7 @@ fn rewrite_value(rules: &[(String, char)], line: &str) -> f64 {
         match id {
             'A' => vec!["foo"],
             'B' => vec!["foo", "bar"],
+            'E' => vec!["qux"],
             _ => vec![],
         }
     };
@@ -72,6 +73,7 @@ fn rewrite_value(rules: &[(String, char)], line: &str) -> f64 {
         match id {
             'A' if n != 7.0 => Some(n + 100.0),
             'B' => Some(n + 200.0),
+            'E' => Some(n + 400.0),
             _ => None,
         }
     };
@@ -187,6 +189,8 @@ fn rule(id: char) -> (Vec<String>, Rc<dyn RuleTrait>) {
         'D' => (vec!["dozen".into()], Rc::new(ConstRule)),
         // literal words that are operator aliases of the language ('times', 'sum'): a pattern is read like a line
         'T' => (vec!["{NUMBER:n} times {NUMBER:m}".into(), "sum {NUMBER:n} {NUMBER:m}".into()], Rc::new(PairRule)),
+        // an empty pattern text next to a usable one: add_rule takes any list of texts
+        'E' => (vec!["".into(), "qux {NUMBER:n}".into()], Rc::new(NumRule { name: "E", add: 400.0, decline: None })),
         // same name as A, other pattern (with a capital letter) and result
         _ => (vec!["Baz {NUMBER:n}".into()], Rc::new(NumRule { name: "A", add: 300.0, decline: None })),
     }
@@ -198,6 +202,7 @@ fn rule_name(id: char) -> &'static str {
         'B' => "B",
         'T' => "T",
         'D' => "D",
+        'E' => "E",
         _ => "C",
     }
 }
@@ -498,15 +503,15 @@ impl Prop for C18 {
         f.push(Family::new(
             "pattern-restart",
             Mode::Full,
-            "every sequence of 1..=2 operations over [add A ('foo {NUMBER:n}'), add B ('foo {NUMBER:n}', 'bar {NUMBER:n}'), delete A, delete B], probed with lines in which a word stands directly in front of the matching run: 'foo foo 5', 'bar bar 5', 'foo bar 5', 'bar foo 5', 'qux foo 5', 'foo foo 7', '5 foo foo 5': the word in front is a plain word whether or not it equals the first word of the pattern",
+            "every sequence of 1..=2 operations over [add A ('foo {NUMBER:n}'), add B ('foo {NUMBER:n}', 'bar {NUMBER:n}'), add E (an empty pattern text and 'qux {NUMBER:n}'), delete A, delete B, delete E], probed with lines in which a word stands directly in front of the matching run: 'foo foo 5', 'bar bar 5', 'foo bar 5', 'bar foo 5', 'qux foo 5', 'foo foo 7', '5 foo foo 5', and with 'qux 5', '1 + 2': the word in front is a plain word whether or not it equals the first word of the pattern",
             move |ch| {
-                let alphabet = [Op::AddRule("en".into(), 'A'), Op::AddRule("en".into(), 'B'), Op::DelRule("en".into(), "A".into()), Op::DelRule("en".into(), "B".into())];
+                let alphabet = [Op::AddRule("en".into(), 'A'), Op::AddRule("en".into(), 'B'), Op::AddRule("en".into(), 'E'), Op::DelRule("en".into(), "A".into()), Op::DelRule("en".into(), "B".into()), Op::DelRule("en".into(), "E".into())];
                 let len = 1 + ch.choose(2);
                 let mut ops = Vec::new();
                 for _ in 0..len {
                     ops.push(ch.pick(&alphabet).clone());
                 }
-                let line = *ch.pick(&["foo foo 5", "bar bar 5", "foo bar 5", "bar foo 5", "qux foo 5", "foo foo 7", "5 foo foo 5"]);
+                let line = *ch.pick(&["foo foo 5", "bar bar 5", "foo bar 5", "bar foo 5", "qux foo 5", "foo foo 7", "5 foo foo 5", "qux 5", "1 + 2"]);
                 Some(Case { ops, pooled: false, bfs: None, full_probe: false, restart_probe: Some(line.to_string()), zero_line: None })
             },
         ));
